@@ -5,12 +5,14 @@ Property theorems only.  Models: `Model/BibWrite.lean` (the three writers, the Y
 readers, `lower()`, `convert`), `Model/BibParse.lean` (the `.bib` reader), `Model/Names.lean`
 (`Person(...)`).  Domain predicates and closed forms: `Spec/BibWrite.lean`.  Helper lemmas:
 `Lemmas/BibWriteSplit.lean` (`split_tex_string` as a flat scan), `Lemmas/BibWriteNames.lean` (tokens,
-names), `Lemmas/BibWritePieces.lean` (completeness of splitting).
+names), `Lemmas/BibWritePieces.lean` (completeness of splitting), `Lemmas/BibWriteDb.lean` (the BibTeX
+writer's text against the `.bib` reader, over the printer/parser lemmas of C01),
+`Lemmas/BibWriteYaml.lean`, `Lemmas/BibWriteXml.lean`, `Lemmas/BibWriteChain.lean`.
 
 The model follows the code after the repairs proposed_fixes/C02-1 (`_format_name` / `__str__` keep
 an empty First part) and C02-2 (BibTeXML reader: role detection on the lower-cased tag).
 -/
-import PybtexModel.Lemmas.BibWritePieces
+import PybtexModel.Lemmas.BibWriteChain
 import PybtexModel.Props.C04
 
 namespace Pybtex.Props
@@ -236,5 +238,178 @@ theorem C02_wfperson_of_parse_nonvacuous :
     c02P4.prelast ++ c02P4.last ≠ [] ∧
     parseName "Last, Jr,".toList = .ok (c02P2, false) ∧ parseName "World Bank,".toList = .ok (c02P3, false) := by
   decide +kernel
+
+/-! ### 2. BibTeX: staged — field, entry, database -/
+
+/-- a database using every construct: a preamble, mixed-case key / type / field names / role, braces,
+quotes (braced spelling), a backslash, `@ , =`, persons with von / Jr / special characters, a Jr part
+without first name, an entry without any field -/
+def c02E1 : Entry :=
+  { key := "Knuth:84".toList, type := "article".toList, origType := "Article".toList,
+    fields := [("Title".toList, "The {\\TeX}book, vol. 1 = @A".toList), ("note".toList, "q \"x\" q".toList),
+               ("year".toList, "1984".toList)],
+    persons := [("AUTHOR".toList, [c02P1, c02P2]), ("editor".toList, [c02P4])] }
+def c02E2 : Entry :=
+  { key := "k2".toList, type := "misc".toList, origType := "misc".toList, fields := [], persons := [] }
+def c02Db : BibData :=
+  { entries := [c02E1, c02E2], preamble := ["\\newcommand{\\x}{y}".toList, " z".toList] }
+/-- one entry with a field called `Type` -/
+def c02DbType : BibData :=
+  { entries := [{ key := "k".toList, type := "a".toList, origType := "a".toList,
+                  fields := [("Type".toList, "x".toList)], persons := [] }] }
+
+/-- **Field.**  A good value (balanced, nesting ≤ 100) that the encoder leaves alone is written as
+`,\n    name = "value"` — `{value}` when it contains a double quote — and that spelling is a
+well-formed literal of the `.bib` grammar (`pieceOk` of C01). -/
+theorem C02_bibtex_field (encode : Str → Str) (n v : Str) (hv : litScan false 0 v = some 0)
+    (henc : encode v = v) :
+    writeField encode n v = .ok (fieldText (n, v)) ∧
+    quote v = .ok (renderPiece (.lit v) { spelling := spellOf v }) ∧
+    (∀ m, pieceOk m (.lit v) { spelling := spellOf v } = true) :=
+  ⟨writeField_ok ⟨hv, henc⟩, quote_ok hv, fun m => pieceOk_spell m hv⟩
+
+theorem C02_bibtex_field_nonvacuous :
+    litScan false 0 "q {\"x\"} q".toList = some 0 ∧
+    fieldText ("note".toList, "q {\"x\"} q".toList) = ",\n    note = {q {\"x\"} q}".toList ∧
+    fieldText ("Title".toList, "A {B}".toList) = ",\n    Title = \"A {B}\"".toList := by
+  decide +kernel
+
+/-- **Entry.**  For an entry of the domain (`entryOkW`): the writer's text is `entryText e`; when
+the entry has a role or a field it is the rendering (`Spec/Bib.lean`, C01) of the entry command
+whose fields are the roles (value = the ` and `-joined names) followed by the fields, under the
+writer's layout, and that command is well-formed for C01 (`cmdOk`); and the command denotes exactly
+the entry — in particular every name list is read back as the same persons. -/
+theorem C02_bibtex_entry (encode : Str → Str) (henc : ∀ s, Safe s = true → encode s = s)
+    (keys : List Str) (e : Entry) (h : entryOkW keys e = true) :
+    writeEntry encode e = .ok (entryText e) ∧
+    (rawFields e ≠ [] →
+      entryText e = renderCmd (.entry e.origType e.key (docOfRaw (rawFields e))) (entryLayout e) ∧
+      cmdOk initMacros keys (.entry e.origType e.key (docOfRaw (rawFields e))) (entryLayout e) = true) ∧
+    denoteEntry initMacros e.origType e.key (docOfRaw (rawFields e)) = e ∧
+    (∀ r ∈ e.persons, personsOf (formatNames r.2) = r.2) := by
+  have hg := entryGood_of_ok h
+  refine ⟨writeEntry_ok henc hg, fun hne => ⟨entryText_render hne, cmdOk_entry hg initMacros⟩,
+    entry_denote hg initMacros, fun r hr => ?_⟩
+  exact (names_read_back r.2 (hg.roles r hr).ne (hg.roles r hr).persons).1
+
+theorem C02_bibtex_entry_nonvacuous :
+    entryOkW [] c02E1 = true ∧ rawFields c02E1 ≠ [] ∧
+    entryOkW ["knuth:84".toList] c02E2 = true ∧ rawFields c02E2 = [] := by
+  decide +kernel
+
+/-- **BibTeX round trip.**  For every database of the domain `WFDb` and every encoder that leaves
+strings free of `# % & _ ~` alone, the writer succeeds and the `.bib` reader (either error mode)
+reads its text back without raising or reporting anything, as the same entries — keys, entry types
+as written, fields with their values in order, persons per role in order — and the same preamble
+(as one string). -/
+theorem C02_bibtex_roundtrip (encode : Str → Str) (henc : ∀ s, Safe s = true → encode s = s)
+    (d : BibData) (h : WFDb d = true) (strict : Bool) :
+    ∃ text, writeStream encode d = .ok text ∧
+      (parseBib text strict none).2 = none ∧ (parseBib text strict none).1.errs = [] ∧
+      (parseBib text strict none).1.db.entries = d.entries ∧
+      (parseBib text strict none).1.db.preamble = canonPreamble d ∧
+      ((parseBib text strict none).1.db.preamble).flatten = d.preambleText := by
+  obtain ⟨text, s', h1, h2, h3, h4, h5⟩ := parseBib_written henc d h strict
+  refine ⟨text, h1, ?_⟩
+  rw [h2]
+  exact ⟨rfl, h3, h4, h5, by rw [h5]; exact canonPreamble_text d⟩
+
+theorem C02_bibtex_roundtrip_nonvacuous :
+    WFDb c02Db = true ∧ (∀ s, Safe s = true → (id : Str → Str) s = s) := by
+  exact ⟨by decide +kernel, fun _ _ => rfl⟩
+
+/-- the text written for the example and what the reader makes of it (kernel evaluation) -/
+theorem C02_bibtex_roundtrip_example :
+    writeStream id c02Db = .ok
+      ("@preamble{\"\\newcommand{\\x}{y} z\"}\n\n@Article{Knuth:84,\n    AUTHOR = \"van Beethoven, Jr, Ludwig X. and Last, Jr,\",\n    editor = {de la Vall{\\'e}e {Poussin, and Co} O\"Q\\x, {\\'E}mile},\n    Title = \"The {\\TeX}book, vol. 1 = @A\",\n    note = {q \"x\" q},\n    year = \"1984\"\n}\n\n@misc{k2\n}\n").toList := by
+  decide +kernel
+
+/-! ### 3. YAML and BibTeXML: pybtex's own conversion logic -/
+
+/-- **YAML.**  Given a lossless serialiser (`yaml.load (yaml.dump t) = t`), reading back what the
+YAML writer wrote yields the same entries — keys, entry types, fields in order, roles in order,
+persons through their five name-part strings — and the preamble as one string; nothing is
+reported.  Domain `WFDbTree true`: no field is called `type` (the key is taken by the entry type). -/
+theorem C02_yaml_logic (S : Serial) (hS : ∀ t, S.loadY (S.dumpY t) = some t) (d : BibData)
+    (h : WFDbTree true d = true) :
+    ofDictYaml (toDictYaml d) = .ok { db := canonDb d, badNames := [], repeated := [], others := 0 } ∧
+    readFmt S .yaml (S.dumpY (toDictYaml d)) =
+      .ok { db := canonDb d, badNames := [], repeated := [], others := 0 } ∧
+    roundTrip S .yaml d = .ok (canonDb d) := by
+  refine ⟨Yaml.yaml_roundtrip d h, ?_, roundTrip_yaml S hS h⟩
+  simp only [readFmt, hS, Yaml.yaml_roundtrip d h]
+
+/-- **BibTeXML.**  Given a lossless serialiser of element trees, reading back what the BibTeXML
+writer wrote yields the same entries (field order, roles in any letter case, the five name parts);
+the format has no place for the preamble. -/
+theorem C02_xml_logic (S : Serial) (hS : ∀ t, S.loadX (S.dumpX t) = some t) (d : BibData)
+    (h : WFDbTree false d = true) :
+    ofTreeXml (toTreeXml d) =
+      .ok { db := { entries := d.entries, preamble := [] }, badNames := [], repeated := [], others := 0 } ∧
+    roundTrip S .bibtexml d = .ok { entries := d.entries, preamble := [] } :=
+  ⟨xml_roundtrip d h, roundTrip_xml S hS h⟩
+
+theorem C02_yaml_logic_nonvacuous : WFDbTree true c02Db = true ∧ WFDbTree false c02Db = true := by
+  decide +kernel
+
+theorem C02_xml_logic_nonvacuous :
+    WFDbTree false c02Db = true ∧
+    -- a field called `Type` is fine for BibTeXML, not for YAML
+    WFDbTree false c02DbType = true ∧ WFDbTree true c02DbType = false := by
+  decide +kernel
+
+/-! ### 4. chains of formats, lower-casing -/
+
+/-- **Chains.**  For ANY list of formats (not only up to three) such that the database lies in the
+domain of each, with lossless serialisers: writing in the first format, converting from each
+format to the next (`convert`, `preserve_case = True`) and reading the last text back ends with the
+entries it started from; the preamble comes back as one string and is lost exactly when BibTeXML
+is on the way. -/
+theorem C02_chain (S : Serial) (henc : ∀ s, Safe s = true → S.encode s = s)
+    (hY : ∀ t, S.loadY (S.dumpY t) = some t) (hX : ∀ t, S.loadX (S.dumpX t) = some t)
+    (fs : List Fmt) (d : BibData) (h : ∀ f ∈ fs, inDomain f d = true) :
+    chain S true fs d = .ok (chainDb fs d) := by
+  rw [chain_true ⟨henc, hY, hX⟩ fs d h, fold_canonFor]
+
+theorem C02_chain_nonvacuous :
+    (∀ f ∈ [Fmt.bibtex, Fmt.yaml, Fmt.bibtexml, Fmt.bibtex], inDomain f c02Db = true) ∧
+    (chainDb [Fmt.bibtex, Fmt.yaml] c02Db).preamble = ["\\newcommand{\\x}{y} z".toList] ∧
+    (chainDb [Fmt.bibtex, Fmt.bibtexml, Fmt.yaml] c02Db).preamble = [] := by
+  decide +kernel
+
+/-- **Lower-casing.**  With `preserve_case = False` (at least one conversion, i.e. two formats) the
+chain ends with the entries of `lowerSpec d` — keys, entry types, field names and role names
+lower-cased, nothing else touched — and the same preamble as without lower-casing. -/
+theorem C02_lower (S : Serial) (henc : ∀ s, Safe s = true → S.encode s = s)
+    (hY : ∀ t, S.loadY (S.dumpY t) = some t) (hX : ∀ t, S.loadX (S.dumpX t) = some t)
+    (f1 f2 : Fmt) (fs : List Fmt) (d : BibData) (h : ∀ f ∈ f1 :: f2 :: fs, inDomain f d = true) :
+    ∃ d', chain S false (f1 :: f2 :: fs) d = .ok d' ∧ d'.entries = (lowerSpec d).entries ∧
+      d'.preamble = (chainDb (f1 :: f2 :: fs) d).preamble :=
+  chain_false ⟨henc, hY, hX⟩ f1 f2 fs d h
+
+theorem C02_lower_nonvacuous :
+    (∀ f ∈ [Fmt.yaml, Fmt.bibtex, Fmt.bibtexml], inDomain f c02Db = true) ∧
+    (lowerSpec c02Db).entries.map (fun e => (e.key, e.origType, e.fields.map (·.1), e.persons.map (·.1))) =
+      [("knuth:84".toList, "article".toList, ["title".toList, "note".toList, "year".toList],
+        ["author".toList, "editor".toList]), ("k2".toList, "misc".toList, [], [])] := by
+  decide +kernel
+
+/-- **`lower()` changes letter case only.**  `BibliographyData.lower()` on a database with
+identifiers distinct up to case (every domain above) is `lowerSpec` and reports nothing; `lowerSpec`
+keeps the number and order of entries, fields, roles and persons, every value and every person, and
+the preamble; each key / entry type / field name / role name is the lower-cased old one; the domains
+are closed under it. -/
+theorem C02_lower_only_case (d : BibData) :
+    ((∃ y, WFDbTree y d = true) → dbLower d = (lowerSpec d, [])) ∧
+    (lowerSpec d).preamble = d.preamble ∧
+    (lowerSpec d).entries.map (·.key) = d.entries.map (fun e => lower e.key) ∧
+    (lowerSpec d).entries.map (·.origType) = d.entries.map (·.type) ∧
+    (lowerSpec d).entries.map (fun e => e.fields.map (·.2)) = d.entries.map (fun e => e.fields.map (·.2)) ∧
+    (lowerSpec d).entries.map (fun e => e.fields.map (·.1)) = d.entries.map (fun e => e.fields.map (lower ·.1)) ∧
+    (lowerSpec d).entries.map (fun e => e.persons.map (·.2)) = d.entries.map (fun e => e.persons.map (·.2)) ∧
+    (lowerSpec d).entries.map (fun e => e.persons.map (·.1)) = d.entries.map (fun e => e.persons.map (lower ·.1)) ∧
+    (∀ f, inDomain f d = true → inDomain f (lowerSpec d) = true) := by
+  refine ⟨fun ⟨y, hy⟩ => dbLower_spec hy, rfl, ?_, ?_, ?_, ?_, ?_, ?_, fun f hf => inDomain_lower hf⟩ <;>
+    simp [lowerSpec, lowerEntrySpec, Function.comp_def]
 
 end Pybtex.Props
